@@ -22,6 +22,7 @@ type OblResult struct {
 	Res    *SolveResult
 	Status string // discharged | refuted | undecided | cover-ok | cover-fail
 	Script string
+	LinScript string
 }
 
 type FuncResult struct {
@@ -94,6 +95,19 @@ func bitsOf2(pc *PkgContracts) map[string]int {
 func solveAll(results []*OblResult, timeoutS int, workers int, order []int) {
 	for _, r := range results {
 		r.Script = r.Ex.buildQuery(r.Obl, nil)
+		if !r.Obl.ExpectSat && strings.Contains(r.Script, "(* ") || strings.Contains(r.Script, "(div ") || strings.Contains(r.Script, "(mod ") {
+			seen := map[int]bool{}
+			nl := smt.HasNonlinear(r.Obl.Goal, seen) || smt.HasNonlinear(r.Obl.Guard, seen)
+			for _, a := range r.Ex.assumes[:r.Obl.NAssume] {
+				if nl {
+					break
+				}
+				nl = smt.HasNonlinear(a, seen)
+			}
+			if nl && !r.Obl.ExpectSat {
+				r.LinScript = r.Ex.buildQueryOpt(r.Obl, nil, true)
+			}
+		}
 	}
 	var wg sync.WaitGroup
 	ch := make(chan *OblResult)
@@ -105,7 +119,10 @@ func solveAll(results []*OblResult, timeoutS int, workers int, order []int) {
 				if r.Obl.ExpectSat {
 					r.Res = Solve(r.Script, 3, []int{0, 1})
 				} else {
-					r.Res = Solve(r.Script, timeoutS, order)
+					r.Res = Solve2(r.Script, r.LinScript, timeoutS, order)
+					if r.Res.Linearized {
+						r.Script = r.LinScript
+					}
 				}
 				switch {
 				case r.Obl.ExpectSat && r.Res.Status == "sat":
